@@ -498,3 +498,76 @@ def _absorb(model, fl):
             f2 = model.funcs.pop(q2)
             if f2 in model.by_name.get(f2.name, []):
                 model.by_name[f2.name].remove(f2)
+
+
+# ---------------------------------------------------------------------------------------------------
+def resolve_callee(model, fn, call):
+    """(callee Func, number of leading parameters bound by the receiver) for a call whose target is
+    unambiguous in the repo, else (None, 0)."""
+    f = call.func
+    m = model
+    if isinstance(f, ast.Name):
+        if f.id in m.classes:
+            g = m.lookup(f.id, "__init__")
+            return (g, 1) if g is not None else (None, 0)
+        q = fn
+        while q is not None:
+            g = m.funcs.get(q.qual + "." + f.id)
+            if g is not None:
+                return g, 0
+            q = q.parent
+        g = m.module_funcs.get(fn.module, {}).get(f.id)
+        if g is not None:
+            return g, 0
+        c = [x for x in m.by_name.get(f.id, []) if x.cls is None and x.parent is None]
+        return (c[0], 0) if len(c) == 1 else (None, 0)
+    if isinstance(f, ast.Attribute):
+        selfname = fn.params[0] if fn.cls and fn.params and not fn.is_staticmethod and (fn.is_method or fn.parent is not None) else None
+        g = None
+        if isinstance(f.value, ast.Name) and f.value.id == selfname and fn.cls and not fn.parent:
+            g = m.lookup(fn.cls, f.attr)
+        elif isinstance(f.value, ast.Name) and f.value.id in m.classes:
+            g = m.lookup(f.value.id, f.attr)
+            if g is not None:
+                return g, (0 if not (g.is_staticmethod or g.is_classmethod) else (1 if g.is_classmethod else 0))
+        if g is None:
+            cands = {id(x): x for x in m.by_name.get(f.attr, []) if x.is_method}
+            if len(cands) == 1:
+                g = next(iter(cands.values()))
+            elif len(cands) > 1 and len({(tuple(x.params[1:]), x.is_staticmethod) for x in cands.values()}) == 1:
+                g = next(iter(cands.values()))
+        if g is None:
+            return None, 0
+        return g, (0 if g.is_staticmethod else 1)
+    return None, 0
+
+
+def normalize_calls(model):
+    """Keyword arguments of calls to repo functions become positional where that leaves no gap
+    (`self.CheckValues(values, dimension=d)` -> `self.CheckValues(values, d)`), so that rules see one
+    spelling of a call.  The table module is left alone (its interpreter binds keywords itself)."""
+    n = 0
+    for q, fn in list(model.funcs.items()):
+        if fn.path.endswith("posc.py") or fn.parent is not None:
+            continue
+        for call in [x for x in ast.walk(fn.node) if isinstance(x, ast.Call)]:
+            if not call.keywords or any(k.arg is None for k in call.keywords) or any(isinstance(a, ast.Starred) for a in call.args):
+                continue
+            # the function lexically enclosing the call decides what `self` is
+            g, skip = resolve_callee(model, fn, call)
+            if g is None:
+                continue
+            a = g.node.args
+            pos = [x.arg for x in a.posonlyargs + a.args][skip:]
+            if a.vararg is not None and len(call.args) >= len(pos):
+                continue
+            kw = {k.arg: k for k in call.keywords}
+            i = len(call.args)
+            while i < len(pos) and pos[i] in kw:
+                k = kw.pop(pos[i])
+                call.args.append(k.value)
+                call.keywords.remove(k)
+                i += 1
+                n += 1
+    model.normalized_keywords = n
+    return n
